@@ -47,6 +47,12 @@ def plan(tier, seed):
     for a, b in E.chunks(E.n_graphs(5, 2), 64):
         shards.append(("g", 5, 2, False, a, b))
         shards.append(("semi", 5, 2, False, a, b))
+    # classifiers obtained by other routes than fit(): learn() (all RNG answers), and save/load into
+    # an object constructed with a different metric
+    for pi in range(24):
+        shards.append(("learn", pi))
+    for a, b in E.chunks(256, 32):
+        shards.append(("load", a, b))
     # value tables in unusual numerical regimes: nearly equal weights (relative gaps of a few 1e-6,
     # i.e. inside the default tolerances of "approximately equal" tests) and tiny / huge magnitudes
     for tab in ("near", "tiny", "huge"):
@@ -210,10 +216,97 @@ def run_case(prog, res=None, model=None):
     return None
 
 
+def judge_feature_model(m, queries, prog, res=None):
+    """Exhaustive-rule oracle for a fitted feature-mode model obtained by ANY route (fit, learn,
+    load): distances are taken with the metric its `distance` option names."""
+    import opfython.math.distance as D
+    fn = D.DISTANCES[m.distance]
+    nodes = m.subgraph.nodes
+    costs = [float(nd.cost) for nd in nodes]
+    plab = [int(nd.predicted_label) for nd in nodes]
+    try:
+        preds = m.predict(np.array(queries, dtype=float))
+    except Horizon:
+        raise
+    except Exception as ex:
+        return viol(prog, "predict raised %r" % (ex,), "predict raised")
+    for bi, q in enumerate(queries):
+        qa = np.array(q, dtype=float)
+        dists = [float(fn(nd.features.copy(), qa.copy())) for nd in nodes]
+        allowed, best, arg = F.acceptable_labels(costs, plab, dists)
+        got = int(preds[bi])
+        if res is not None:
+            res.transitions += 1
+            res.evaluations += 1
+            res.nontrivial += 1
+        if got not in allowed:
+            return viol(prog, "query %r was labelled %d; the samples minimising max(cost, d) (value %r, samples "
+                        "%s) carry labels %s; costs %s, distances %s" % (q, got, best, arg, sorted(allowed), costs, dists),
+                        "label not of an exhaustive minimiser")
+    return None
+
+
+def learn_case(prog, res=None, chooser=None):
+    """A classifier produced by learn() (RNG answers from prog["script"]) must obey the rule too."""
+    from mc import seams
+    from mc.props import c17
+    from opfython.models import SupervisedOPF
+    cfg = prog["learn"]
+    ch = chooser if chooser is not None else seams.Chooser(prog["script"], 0)
+    Xt = np.array(cfg["Xt"], dtype=float).reshape(-1, 1)
+    o = SupervisedOPF("euclidean")
+    with c17.own_rng(ch):
+        try:
+            o.learn(Xt, np.array(cfg["Yt"], dtype=int), np.array(cfg["Xv"], dtype=float).reshape(-1, 1),
+                    np.array(cfg["Yv"], dtype=int), n_iterations=cfg["iters"])
+        except Horizon:
+            raise
+        except Exception as ex:
+            return viol(prog, "learn raised %r" % (ex,), "learn raised")
+    qs = [[v] for v in (-1.0, 0.0, 0.5, 1.0, 2.0, 2.5, 3.0, 4.0, 4.5, 5.0, 7.0)]
+    v = judge_feature_model(o, qs, prog, res)
+    if v:
+        v["fingerprint"] = "SupervisedOPF.predict after learn: label not of an exhaustive minimiser"
+    return v
+
+
+def load_case(prog, res=None):
+    """fit with one metric, save, load into an object constructed with ANOTHER metric, predict."""
+    import os
+    import shutil
+    import tempfile
+    from mc.runner import scratch_dir
+    import opfython.models as M
+    cls = getattr(M, prog["model"])
+    d = tempfile.mkdtemp(prefix="c03-", dir=scratch_dir())
+    try:
+        a = cls(distance=prog["metric"])
+        X = np.array(prog["X"], dtype=float)
+        lab = np.array(prog["labels"], dtype=int)
+        if prog["model"] == "SemiSupervisedOPF":
+            a.fit(X[:-1].copy(), lab[:-1], X[-1:].copy())
+        else:
+            a.fit(X.copy(), lab)
+        path = os.path.join(d, "m.pkl")
+        a.save(path)
+        b = cls(distance=prog["other"])
+        b.load(path)
+        v = judge_feature_model(b, prog["queries"], prog, res)
+        if v:
+            v["fingerprint"] = "%s.predict after load: label not of an exhaustive minimiser" % prog["model"]
+        return v
+    except Horizon:
+        raise
+    except Exception as ex:
+        return viol(prog, "save/load raised %r" % (ex,), "save/load raised")
+    finally:
+        shutil.rmtree(d, ignore_errors=True)
+
+
 def viol(prog, prob, sym):
     return {"check": "predict", "program": prog, "observed": prob,
             "allowed": "label of a minimiser of max(cost(t), d(t, x)) over all training samples",
-            "explanation": prob, "fingerprint": "%s.predict: %s" % (prog["model"], sym)}
+            "explanation": prob, "fingerprint": "%s.predict: %s" % (prog.get("model", "SupervisedOPF"), sym)}
 
 
 _PREV = {}
@@ -223,8 +316,58 @@ def _key(prog):
     return sup.cache_key(prog) if prog["model"] in ("SupervisedOPF", "SemiSupervisedOPF") else None
 
 
+def run_special(shard, seed, res):
+    if shard[0] == "learn":
+        from mc.explore import explore
+        from mc.props import c17
+        for cfg in c17.learn_configs(3, shard[1], seed):
+            found = []
+
+            def execute(ch):
+                prog = {"learn": cfg, "script": []}
+                with horizon(20.0):
+                    v = learn_case(prog, res, chooser=ch)
+                if v:
+                    v["program"] = {"learn": cfg, "script": [c for _, c in ch.points]}
+                    found.append(v)
+                return v
+
+            out = explore(execute)
+            res.traces += out["executions"]
+            res.states += 1
+            res.violations.extend(found[:1])
+            if res.full:
+                break
+        res.sample({"learn": cfg, "script": "all RNG answer sequences", "then": "predict 11 queries"}, 1)
+        return res
+    _, a, b = shard
+    pts = E.lattice("1d", seed)
+    qs = [[v] for v in (-1.0, 0.0, 0.5, 1.0, 1.5, 2.0, 2.5, 3.0, 9.0)]
+    for si in range(a, b):
+        seq = E.sequence_at(4, 4, si)
+        X = [list(pts[i]) for i in seq]
+        for lab in ([0, 1, 0, 1], [0, 0, 1, 1]):
+            for model in ("SupervisedOPF", "SemiSupervisedOPF"):
+                for m1, m2 in (("manhattan", "log_squared_euclidean"), ("log_squared_euclidean", "euclidean"),
+                               ("squared_euclidean", "chebyshev")):
+                    prog = {"model": model, "mode": "features", "X": X, "labels": lab, "metric": m1,
+                            "other": m2, "queries": qs, "route": "load"}
+                    with horizon(20.0):
+                        v = load_case(prog, res)
+                    res.traces += 1
+                    res.states += 1
+                    if v:
+                        res.violations.append(v)
+                        if res.full:
+                            return res
+    res.sample(prog, 1)
+    return res
+
+
 def run(shard, seed):
     res = Result()
+    if shard[0] in ("learn", "load"):
+        return run_special(shard, seed, res)
     k = 0
     for prog in programs(shard, seed):
         try:
@@ -251,4 +394,9 @@ def run(shard, seed):
 
 
 def replay(case):
-    return sup.replay_with_history(run_case, case["program"])
+    p = case["program"]
+    if "learn" in p:
+        return learn_case(p)
+    if p.get("route") == "load":
+        return load_case(p)
+    return sup.replay_with_history(run_case, p)
